@@ -85,3 +85,14 @@ func VerifSentinels() map[string]*Status {
 		"statUnpreparedError":     statUnpreparedError,
 	}
 }
+
+// VerifSetSeq sets the session's message sequence counter (the state reached after that many
+// messages were sent); the next message gets v+1.
+func VerifSetSeq(sess Session, v int32) bool {
+	s, ok := sess.(*session)
+	if !ok {
+		return false
+	}
+	atomic.StoreInt32(&s.seq, v)
+	return true
+}
